@@ -46,6 +46,19 @@ ASSUMPTIONS = [
 ]
 
 KINDS = ["module", "module", "module", "project", "synth", "pattern"]
+
+
+def file_pool():
+    """Files several actors may load: every fixture plus a few generated projects with large
+    embedded payloads (sizes are part of the swarm)."""
+    pool = [{"src": "fixture", "name": n} for n in files.fixture_names()]
+    pool += [{"src": "gen", "seed": 9000 + j, "nest": True, "layout": 2, "big": True, "n": 6} for j in range(3)]
+    return pool
+
+
+def file_bytes(t):
+    pool = file_pool()
+    return files.materialize(pool[t % len(pool)]), files.spec_label(pool[t % len(pool)])
 ALL_TYPES = builder.TYPES
 
 
@@ -174,13 +187,17 @@ def execute(case):
     for kind, t in sorted(need):
         pristine[(kind, t)] = obj_digest(construct(kind, t))
     # pristine reference of every fixture that a later load_check will compare against
-    names = files.fixture_names()
     pristine_file = {}
     for op in case["ops"]:
         if op["k"] in ("load_check", "failed_load"):
-            n = names[op.get("t", 0) % len(names)]
+            data_, n = file_bytes(op.get("t", 0))
             if n not in pristine_file:
-                pristine_file[n] = obj_digest(load_bytes(files.fixture_bytes(n)))
+                pristine_file[n] = obj_digest(load_bytes(data_))
+    # the reference objects are garbage now, but they are reference cycles (module <-> project): collect
+    # them, so that no weakly-held leftover of the reference run is around when the history starts
+    import gc
+
+    gc.collect()
 
     actors = []  # dict(obj, how, snap, bytes, writer)
     seq = []
@@ -219,7 +236,7 @@ def execute(case):
                 how = op.get("how", "new")
                 src = actors[op.get("of", 0) % len(actors)] if actors else None
                 obj = None
-                if how == "new" or src is None:
+                if how == "new" or (src is None and how in ("clone", "load")):
                     how = "new"
                     obj = construct(op.get("kind", "module"), op.get("t", 0))
                     check_fresh(op.get("kind", "module"), op.get("t", 0), obj, i, "obtain")
@@ -250,9 +267,8 @@ def execute(case):
                     obj = load_bytes(sess.project.read())
                 elif how == "loadfile_unused":
                     pass
-                else:  # loadfile: the same fixture twice gives two independent objects
-                    names = files.fixture_names()
-                    obj = load_bytes(files.fixture_bytes(names[op.get("t", 0) % len(names)]))
+                else:  # loadfile: the same file twice gives two independent objects
+                    obj = load_bytes(file_bytes(op.get("t", 0))[0])
                     how = "loadfile"
                 snap, b = obj_digest(obj)
                 actors.append({"obj": obj, "how": how, "snap": snap, "bytes": b, "writer": None, "mut": 0})
@@ -341,8 +357,7 @@ def execute(case):
                 log.append((i, "construct_check", kind, type_of(obj)))
             elif k == "failed_load":
                 # some actor's load is hit by an I/O fault half way: nothing anybody holds may change
-                n = names[op.get("t", 0) % len(names)]
-                data = files.fixture_bytes(n)
+                data, n = file_bytes(op.get("t", 0))
                 fault = dict(op.get("fault", {"kind": "read_eio", "at": 5}), stream=op.get("fault", {}).get("stream", 0))
                 ctx = Ctx([fault])
                 outcome = "ok"
@@ -360,8 +375,8 @@ def execute(case):
                 log.append((i, "failed_load", n, outcome))
             elif k == "load_check":
                 # a clean load of a fixture must give what it gave in the pristine process state
-                n = names[op.get("t", 0) % len(names)]
-                snap, b = obj_digest(load_bytes(files.fixture_bytes(n)))
+                data_, n = file_bytes(op.get("t", 0))
+                snap, b = obj_digest(load_bytes(data_))
                 ref = pristine_file[n]
                 d = snapshot.diff(ref[0], snap, limit=5)
                 if d or b != ref[1]:
@@ -421,10 +436,12 @@ def generate(seed, i, tier="quick"):
     nact = r.randint(2, 4)
     # swarm: a run focuses on one type family so that A and B often share a class
     focus_t = r.randrange(len(ALL_TYPES))
+    if r.random() < 0.08:
+        focus_t = len(files.fixture_names()) + r.randrange(3)  # as a file index: one of the big generated files
     focus_kind = r.choice(KINDS)
 
     def obtain(first):
-        how = r.choice(["new", "new", "new", "twins"]) if first else r.choice(["new", "new", "clone", "load", "loadfile", "twins"])
+        how = r.choice(["new", "new", "new", "twins", "loadfile"]) if first else r.choice(["new", "new", "clone", "load", "loadfile", "twins"])
         kind = focus_kind if r.random() < 0.7 else r.choice(KINDS)
         t = focus_t if r.random() < 0.7 else r.randrange(1000)
         return {"k": "obtain", "how": how, "kind": kind, "t": t, "of": r.randrange(4)}
